@@ -85,7 +85,7 @@ pub fn run(run: &Run) {
     run.rule(
         "cases = (constructor, u64 input with input/unit-per-second < 2^32): enumerated boundaries (0, unit multiples +-1, powers of two +-1, \
          largest admissible values); the first and last 8 sub-second values of 1.2 M whole-second counts; 65536 inputs on either side of every \
-         multiple (x1..x130) of every power of two 2^24..2^52; every input below 2^26 (thorough: from_ms below 2^37, from_us below 2^36); then uniform / log-uniform / (seconds, remainder) random inputs; non-trivial = sub-second part != 0 and \
+         multiple (x1..x130) of every power of two 2^24..2^52; every input below 2^26 (thorough: from_ms below 2^37, from_us below 2^36); call histories on one thread (descending walks, zig-zag around second boundaries, both constructors alternately); then uniform / log-uniform / (seconds, remainder) random inputs; non-trivial = sub-second part != 0 and \
          whole seconds != 0; distinct by (constructor, input)",
     );
     run.assume("oracle: seconds*10^6 + microseconds == input expressed in microseconds, computed in u128; overflow checks are on in the build");
@@ -201,6 +201,51 @@ pub fn run(run: &Run) {
     run.enumerate("dense-from_us", us_blocks, false, |b| {
         let mut rep = BlockReport::default();
         sweep(1_000_000, b * block, (b + 1) * block - 1, &mut rep);
+        rep
+    });
+    // (4) call histories on one thread: the constructors are pure functions, so the answer must not depend on what was
+    //     asked before — descending dense walks across second boundaries, zig-zag walks with steps below one second,
+    //     and both constructors asked alternately about neighbouring instants
+    run.enumerate("call-histories", 4096, false, |b| {
+        let mut rep = BlockReport::default();
+        let mut judge = |unit: u64, x: u64, rep: &mut BlockReport| {
+            let c = Case { unit, x };
+            rep.evaluations += 1;
+            match check(&c) {
+                Ok(_) => rep.nontrivial += 1,
+                Err(v) => {
+                    if rep.violation.is_none() {
+                        rep.violation = Some((json!({"history": "see section call-histories", "failing_call": c}), v));
+                    }
+                }
+            }
+        };
+        let base_s = crate::util::splitmix64(0xC17 ^ b) % ((1u64 << 32) - 4) + 2;
+        for unit in [1000u64, 1_000_000] {
+            let start = base_s * unit + unit / 4;
+            // descending walk with steps of about a tenth of a second across two second boundaries
+            let mut x = start;
+            for _ in 0..24 {
+                judge(unit, x, &mut rep);
+                x -= unit / 10 + 1;
+            }
+            // zig-zag around the boundary
+            for (i, d) in [250u64, 900, 50, 999, 1, 500, 998, 2].iter().enumerate() {
+                let off = d * unit / 1000;
+                let x = if i % 2 == 0 { base_s * unit + off } else { base_s * unit - off.max(1) };
+                judge(unit, x, &mut rep);
+            }
+        }
+        // both constructors alternately about instants less than a second apart
+        let ms = base_s * 1000 - 100;
+        for k in 0..12u64 {
+            judge(1000, ms + k * 35, &mut rep);
+            judge(1_000_000, (ms + k * 35) * 1000 + 350_000 + k, &mut rep);
+            judge(1_000_000, (ms + k * 35) * 1000 - 350_000 - k, &mut rep);
+        }
+        if b == 5 {
+            rep.sample = Some(json!({"around second": base_s, "histories": "descending walk, zig-zag, alternating from_ms/from_us"}));
+        }
         rep
     });
     run.random("random", run.cases(2_000_000, 40_000_000), 0.5, strategy, check);
